@@ -26,6 +26,7 @@ CONSTANTS
   HOps = {"write", "ret"}
   ReadLens = {1}
   WriteLens = {1, 3}
+  WRN = 1
   N400C = 1
   N400T = 2
   MaxSteps = @STEPS@
